@@ -559,3 +559,12 @@ T('C20', 'twin-new-literal-renamed', PGP, NEWLIT + "\n            # if cls.is_as
 M('C20', 'new-compression-forced-zip', PGP, "            msg |= lit\n            msg._compression = compression\n", "            msg |= lit\n            msg._compression = CompressionAlgorithm.ZIP\n", 'C20.6')
 M('C20', 'new-sensitive-inverted', PGP, "            lit.filename = '_CONSOLE' if sensitive else os.path.basename(filename)", "            lit.filename = os.path.basename(filename) if sensitive else '_CONSOLE'", 'C20.6')
 M('C20', 'new-no-update-hlen', PGP, "            lit.update_hlen()\n\n            msg |= lit\n", "            msg |= lit\n", 'C20.6')
+T('C20', 'twin-trailing-yield-from', PGP, "            for sig in self._signatures:\n                yield sig\n\n    def __or__(self, other):\n        if isinstance(other, Marker):", "            yield from self._signatures\n\n    def __or__(self, other):\n        if isinstance(other, Marker):")
+T('C20', 'twin-ops-reversed-copy', PGP, "            for sig in reversed(self._signatures):\n                ops = sig.make_onepass()\n", "            for sig in reversed(list(self._signatures)):\n                ops = sig.make_onepass()\n")
+M('C20', 'trailing-sigs-yield-from-reversed', PGP, "            for sig in self._signatures:\n                yield sig\n\n    def __or__(self, other):\n        if isinstance(other, Marker):", "            yield from reversed(self._signatures)\n\n    def __or__(self, other):\n        if isinstance(other, Marker):", 'C20.2')
+M('C20', 'flag-dropped', PGP, "                if sig is self._signatures[0]:\n                    ops.nested = True\n                yield ops", "                yield ops", 'C20.4')
+T('C14', 'twin-export-extend', PGP, KEYSIGS, "        for sig in iter(s for s in self._signatures if not s.embedded and s.exportable):\n            _bytes.extend(sig.__bytearray__())\n")
+T('C14', 'twin-stream-inlined', PGP, TRUST + "\n        def pktgrouper():", "        def pktgrouper():",
+  more=[(PGP, "itertools.groupby(getpkt, key=pktgrouper())", "itertools.groupby(filter(lambda p: p.header.tag != PacketTag.Trust, iter(functools.partial(_getpkt, data), None)), key=pktgrouper())")])
+T('C14', 'twin-copy-binary-or', PGP, "        for uid in self._uids:\n            key |= copy.copy(uid)\n", "        for uid in self._uids:\n            key = key | copy.copy(uid)\n")
+T('C20', 'twin-new-option-bool', PGP, "        sensitive = kwargs.pop('sensitive', False)\n", "        sensitive = bool(kwargs.pop('sensitive', False))\n")
